@@ -5,6 +5,18 @@ ALL = ["C%02d" % i for i in range(1, 21)]
 TB = ("Trusted: Coq 8.16.1 kernel + bytecode VM (vm_compute; no native_compute); the Python harness "
       "(generators, exact float->rational conversion, epgpy drivers); NumPy/CPython. ")
 CLAIMED = {
+ "C01": dict(
+   text="Machine-checked proof (Coq): for every program of the 1-D model (ScalarOp/MatrixOp with recovery term, integer shifts, "
+        "spoiler, reset, PD, wait), any valid coefficients and any well-formed initial state, the Laurent synthesis of the phase "
+        "states evolves like one classical isochromat (synth_step/synth_run, by induction over programs, generic commutative ring); "
+        "DFT inversion shows the states are exactly the DFT coefficients of N independently simulated isochromats and F0/Z0 the "
+        "ensemble means; over C a principal root of unity exists for every N. The RF/relaxation coefficient arrays are TRANSLATED "
+        "from transition.py/evolution.py on every run and proved to be the Rodrigues rotation / to solve the Bloch ODE.",
+   design_ref="DESIGN.md sections 3 and 4 C01",
+   note=TB + "Translator (Python ast -> Gen/*.v) validated on every run by Interval evaluation against the implementation. "
+        "Modelled rather than verified: Model/State.v, Model/Ops.v (exact dyadic correspondence incl. simulate() F0/Z0). Truncated shifts are excluded from the "
+        "theorem (C13). Axioms: none for the algebraic theorems; the analytic ones (Coquelicot reals) use sig_not_dec, sig_forall_dec, functional_extensionality_dep, classic.",
+   technique="Coq proof (induction over programs, DFT inversion, real analysis on translated coefficients) + translator + exact correspondence"),
  "C08": dict(
    text="Machine-checked proof (Coq) that every operator of the hand-written 1-D model preserves well-formedness "
         "(wf_step, wf_run over all programs, wf_init, only_pd_changes_equilibrium), generic over any commutative ring "
